@@ -15,7 +15,7 @@ TECH = {
     "C03": "polynomial tiling identity of the window writer, rounding-provenance dataflow, sibling scatter agreement, key symmetry, writer/parser agreement of the channel-subset string, split / group-by idiom models, window-state coherence (loop-carried dataflow), per-shank output-file model (entry keys, file effects, open modes: a file that is appended to must start empty); column algebra of gather / scatter forms (np.take gathers, gathered blocks with cumulative bounds, stack + inverse permutation)",
     "C04": "CFG dominance of deletion by verification, typestate over an abstract verification state (flag / pending set / None), guard entailment, unlink tolerance, file-effect model of the prepare step (truncate / create-keep / append) against the writer's open mode; persisted-verification protocol (a flag in the shank metas counts only if written after the verification loop and removed before the shank files are rewritten); run-wise verification model (run table = partition of its argument; coverage per shank; cut of the table)",
     "C05": "call-binding forwarding completeness, group-by idiom model for per-collection rows, ordering (shift before spatial filter), sign normal form, finite-domain label sets, sibling agreement, argument-aliasing rule (numpy view model) for the header's delay vector; shared-state analyses (hand-rolled caches, cache-key completeness); label-form model of grouped referencing (member-based references, positional-block reductions)",
-    "C06": "batch schedule model (while or for-range form; grid start, stride, bound = max_s - 2*taper per worker, last-worker test against the fan-out's count) with polynomial tiling/seek identities (exact polynomial division), taint / view-provenance dataflow of sync columns, fan-out binding; batch-ownership schedule form (partition of batch indices); definite binding of the worker closure's free variables (symtable + path-condition entailment between read, launch and bindings); loop progress (stride positivity entailed by a dominating guard)",
+    "C06": "batch schedule model (while or for-range form; grid start, stride, bound = max_s - 2*taper per worker, last-worker test against the fan-out's count) with polynomial tiling/seek identities (exact polynomial division), taint / view-provenance dataflow of sync columns, fan-out binding; batch-ownership schedule form (partition of batch indices); definite binding of the worker closure's free variables (symtable + path-condition entailment between read, launch and bindings); loop progress (stride positivity entailed by a dominating guard); first-batch-is-real clause (a worker starting in the last taper margins returns early) and start-ownership schedule design",
     "C07": "path-sensitive substitution model of the phase factor: layout calculus (which axis every factor varies along, per path and per multiplication target), impulse / analytic ramp normal forms on the substituted exponent, argument-aliasing rule (numpy view model), transform-length rule, rounding-kind agreement of a whole/fraction shift split; roll-only path needs an exact whole-shift guard; interprocedural evaluation of library helpers inside the analytic ramp",
     "C08": "joint-permutation shape + ordering (ADC attributes before any restriction), lexsort key model, rational grid-inverse identity, generation table exhaustiveness, closed-form delay normal form, site-locality rule (no reduction over the saved sites feeds a coordinate)",
     "C09": "conversion-vector layout by abstract interpretation (segment vectors with whole-table text columns and row selections ordered numerically vs lexicographically; all small count assignments), evaluated decision table of the max-int lookup with call-site guards, reader/writer token agreement, value tables; shared-state analyses (cached parses handed out as shallow copies, call-sensitive sharing); path forking on run-time predicates in the layout interpreter, uniform-gain claim and delimiter rule of its counting pattern",
